@@ -814,6 +814,22 @@ pub fn gen_c09(asm: &Asm, mach: &mut Mach, rng: &mut Rng, sh: &mut Shards, thoro
 // C10 / C11: the grammar's shape set (enumerated by TLC) through the real assembler and the
 // downstream parsers, under several spellings
 // ---------------------------------------------------------------------------------------------
+/// the same instruction with every negative immediate source written as the unsigned constant of the same bit pattern
+fn unsigned_imm(ins: &Ins) -> Ins {
+    let fix = |w: u8, o: &Opnd| -> Opnd {
+        match o {
+            Opnd::Imm(v) if *v < 0 => Opnd::Imm(if w == 8 { *v & 0xFF } else { *v & 0xFFFF }),
+            _ => o.clone(),
+        }
+    };
+    match ins {
+        Ins::BinArith { op, w, dst, src } => Ins::BinArith { op, w: *w, dst: dst.clone(), src: fix(*w, src) },
+        Ins::Logic { op, w, dst, src } => Ins::Logic { op, w: *w, dst: dst.clone(), src: fix(*w, src) },
+        Ins::Mov { w, dst, src } => Ins::Mov { w: *w, dst: dst.clone(), src: fix(*w, src) },
+        _ => ins.clone(),
+    }
+}
+
 pub fn gen_shapes(asm: &Asm, mach: &mut Mach, rng: &mut Rng, sh: &mut Shards, path: &str, thorough: bool) {
     let text = std::fs::read_to_string(path).expect("shape file");
     let spellings: Vec<Spelling> = vec![
@@ -842,9 +858,13 @@ pub fn gen_shapes(asm: &Asm, mach: &mut Mach, rng: &mut Rng, sh: &mut Shards, pa
             let flags = rng.u16();
             let seed = ((n / 32) % 251) as i64;
             let stack: Vec<usize> = if matches!(ins, Ins::Ret) { vec![2] } else { vec![] };
-            let evs = run_one(asm, mach, &ins, &sp, &regs, flags, seed, &[], &stack);
+            // C11: a negative decimal and the unsigned constant with the same bit pattern are the same constant: the second
+            // rendering writes every negative immediate as its unsigned equivalent (in the radix of that spelling)
+            let ins_sp = if si == 1 { unsigned_imm(&ins) } else { ins.clone() };
+            let ins = &ins_sp;
+            let evs = run_one(asm, mach, ins, &sp, &regs, flags, seed, &[], &stack);
             // what was emitted for this rendering, and the data lines through the real loader
-            match assemble_ins(asm, &ins, &sp) {
+            match assemble_ins(asm, ins, &sp) {
                 Ok((a, _, src)) => {
                     let mut vm = emulator_8086_lib::VM::new();
                     if let Err(e) = load_data(&mut vm, &a.out.data) {
